@@ -1,6 +1,15 @@
 #!/bin/bash
-# tools/allseeds.sh [tier] — re-runs every kept seeded change against its property's check (4 at a time).
-# Prints one line per seed; exit=1 means detected.
-cd /verif
+# tools/allseeds.sh [tier] — re-runs every kept seeded change against the check that is recorded as
+# detecting it (meta.json detected_by, else its own property), 3 at a time. Prints one line per seed;
+# exit=1 means detected. Works from a snapshot of /verif too (vp run -- tools/allseeds.sh).
+ROOT="$(cd "$(dirname "$0")/.." && pwd)"
+cd "$ROOT"
 tier="${1:-quick}"
-ls seeded | xargs -P 4 -I{} sh -c "tools/seedcheck.sh {} '' $tier 2>&1 | grep '^SEED'" 
+for s in $(ls seeded); do
+  id=$(python3 -c "
+import json,re,sys
+m=json.load(open('seeded/$s/meta.json'))
+d=re.findall(r'C\\d\\d', m.get('detected_by',''))
+print(d[0] if d else '$s'.split('-')[0])")
+  echo "$s $id"
+done | xargs -P 3 -L 1 sh -c "tools/seedcheck.sh \$0 \$1 $tier 2>&1 | grep '^SEED'"
